@@ -184,7 +184,9 @@ class Ctx(object):
         ev = {"property_id": self.pid, "tier": self.tier, "seed": self.seed, "level": level,
               "coverage": cov, "assumptions": self.assumptions, "wall_s": round(wall, 2),
               "violations": len(self.violations)}
-        with open(os.path.join(EVIDENCE, "%s.json" % self.pid), "w") as fh:
+        evdir = EVIDENCE if self.pid.startswith("C") else os.path.join(VERIF, "evidence_extra")
+        os.makedirs(evdir, exist_ok=True)
+        with open(os.path.join(evdir, "%s.json" % self.pid), "w") as fh:
             fh.write(json.dumps(ev, indent=1, default=_jsonable))
         for fid, n in sorted(self.known_hits.items()):
             what = [f["what"] for f in self.known if f["id"] == fid][0]
